@@ -125,7 +125,7 @@ def make_spec(bigsize=9000, nmsg=3, ndocs=4):
                                                   ["bin/run.pyg", PYG, 0o755]]},
         {"p": "arc2.zip", "k": "zip", "members": [["nope/x", "in the second archive\n"], ["d/only2.txt", "2\n"],
                                                    ["a.txt", "another a\n"]]},
-        {"p": "script.sh", "k": "file", "d": "#!/bin/sh\necho hello from script\necho \"query=$SEARCHREQUEST\"\n", "x": True},
+        {"p": "script.sh", "k": "file", "d": "#!/bin/sh\necho hello from script\necho \"query=$SEARCHREQUEST\"\necho \"selector=$SELECTOR request=$REQUEST args=$*\"\n", "x": True},
         {"p": "t.html.tal", "k": "file",
          "d": "<html><body>Selector: <b tal:content=\"selector\">s</b>"
               "<p tal:repeat=\"i python:range(5)\">row <i tal:content=\"i\">0</i></p></body></html>\n"},
